@@ -1,1 +1,55 @@
-//! Harness contracts for C12.
+//! Harness contract for C12 (`MathLib`, DESIGN Appendix A): forwards 1:1 to the public
+//! fixed-point API of `stellar_contract_utils::math`.  No behaviour of its own: the
+//! `Wad` newtype is unwrapped with `raw()` / wrapped with `from_raw()` only because it is
+//! not a contract type.
+
+pub mod mathlib {
+    use soroban_sdk::{contract, contractimpl, Env, I256};
+    use stellar_contract_utils::math::{
+        checked_mul_div_i128, checked_mul_div_i256, mul_div_i128, mul_div_i256, wad::Wad, Rounding, SorobanMulDiv,
+    };
+
+    #[contract]
+    pub struct MathLib;
+
+    #[contractimpl]
+    impl MathLib {
+        // ---- free functions
+        pub fn mul_div_i128(e: &Env, x: i128, y: i128, d: i128, r: Rounding) -> i128 {
+            mul_div_i128(e, x, y, d, r)
+        }
+        pub fn checked_mul_div_i128(e: &Env, x: i128, y: i128, d: i128, r: Rounding) -> Option<i128> {
+            checked_mul_div_i128(e, x, y, d, r)
+        }
+        pub fn mul_div_i256(e: &Env, x: I256, y: I256, d: I256, r: Rounding) -> I256 {
+            mul_div_i256(e, x, y, d, r)
+        }
+        pub fn checked_mul_div_i256(e: &Env, x: I256, y: I256, d: I256, r: Rounding) -> Option<I256> {
+            checked_mul_div_i256(e, x, y, d, r)
+        }
+        // ---- trait methods (`SorobanMulDiv for i128`), addressed by the same Rounding selector
+        pub fn t_mul_div(e: &Env, x: i128, y: i128, d: i128, r: Rounding) -> i128 {
+            match r {
+                Rounding::Floor => x.mul_div_floor(e, &y, &d),
+                Rounding::Ceil => x.mul_div_ceil(e, &y, &d),
+                Rounding::Truncate => x.mul_div(e, &y, &d),
+            }
+        }
+        // ---- Wad
+        pub fn wad_checked_mul(e: &Env, a: i128, b: i128) -> Option<i128> {
+            Wad::from_raw(a).checked_mul(e, Wad::from_raw(b)).map(|w| w.raw())
+        }
+        pub fn wad_checked_div(e: &Env, a: i128, b: i128) -> Option<i128> {
+            Wad::from_raw(a).checked_div(e, Wad::from_raw(b)).map(|w| w.raw())
+        }
+        pub fn wad_from_ratio(e: &Env, num: i128, den: i128) -> i128 {
+            Wad::from_ratio(e, num, den).raw()
+        }
+        pub fn wad_pow(e: &Env, x: i128, n: u32) -> i128 {
+            Wad::from_raw(x).pow(e, n).raw()
+        }
+        pub fn wad_checked_pow(e: &Env, x: i128, n: u32) -> Option<i128> {
+            Wad::from_raw(x).checked_pow(e, n).map(|w| w.raw())
+        }
+    }
+}
